@@ -4,6 +4,7 @@ import (
 	"context"
 	goerrors "errors"
 	"fmt"
+	"os"
 	"regexp"
 	"strings"
 
@@ -220,6 +221,13 @@ func buildVersion(v, perm int) *migProfile {
 		errors.RegisterTypeMigration(gen.MigPkgPath, "*gen.XFooP", gen.XBarV{})
 		errors.RegisterTypeMigration(gen.MigPkgPath, "gen.XFooV", &gen.XBarP{})
 		errors.RegisterTypeMigration(gen.MigPkgPath, "*gen.FooMulti", &gen.BarMulti{})
+		errors.RegisterTypeMigration(gen.MigPkgPath, "*gen.XNilFoo", (*gen.XNilBar)(nil))
+		errors.RegisterLeafDecoder(errors.GetTypeKey((*gen.XNilBar)(nil)), func(_ context.Context, msg string, _ []string, _ proto.Message) error {
+			if msg == (*gen.XNilBar)(nil).Error() {
+				return (*gen.XNilBar)(nil)
+			}
+			return &gen.XNilBar{Msg: msg}
+		})
 		errors.RegisterLeafDecoder(errors.GetTypeKey(gen.XBarV{}), func(_ context.Context, msg string, _ []string, _ proto.Message) error { return gen.XBarV{Msg: msg} })
 		errors.RegisterLeafDecoder(errors.GetTypeKey(&gen.XBarP{}), func(_ context.Context, msg string, _ []string, _ proto.Message) error { return &gen.XBarP{Msg: msg} })
 		errors.RegisterMultiCauseDecoder(errors.GetTypeKey(&gen.BarMulti{}), func(_ context.Context, causes []error, msg string, _ []string, _ proto.Message) error {
@@ -231,6 +239,8 @@ func buildVersion(v, perm int) *migProfile {
 		}{
 			{"pointer-to-value", gen.MigPkgPath + "/*gen.XFooP", func() error { return gen.XBarV{Msg: "TKUxvQ"} }},
 			{"value-to-pointer", gen.MigPkgPath + "/gen.XFooV", func() error { return &gen.XBarP{Msg: "TKUxpQ"} }},
+			{"typed-nil-pointer", gen.MigPkgPath + "/*gen.XNilFoo", func() error { return (*gen.XNilBar)(nil) }},
+			{"nil-safe-type", gen.MigPkgPath + "/*gen.XNilFoo", func() error { return &gen.XNilBar{Msg: "TKUxnQ"} }},
 			{"multi-cause", gen.MigPkgPath + "/*gen.FooMulti", func() error {
 				return &gen.BarMulti{Msg: "TKUmultiQ", Errs: []error{errors.New("TKSb1Q"), goerrors.New("TKUb2Q")}}
 			}},
@@ -260,6 +270,39 @@ func buildVersion(v, perm int) *migProfile {
 			} else if m, ok := dec.(*gen.BarMulti); ok && len(m.Errs) != 2 {
 				mp.problems = append(mp.problems, Violation{Prop: "C17", Oracle: "decodes-to-current-type", Culprit: "decoder", Config: "receiver=" + versionNames[v] + " " + cfgs,
 					Expected: "2 branches", Observed: fmt.Sprint(len(m.Errs)), Where: "loop-back transfer at " + versionNames[v]})
+			}
+		}
+	}
+	// the library's own declared rename (os.PathError became io/fs.PathError
+	// in Go 1.16): a PathError travels under the name old programs know, and
+	// one arriving under that name becomes the current type
+	{
+		const oldKey = "os/*os.PathError"
+		pe := &os.PathError{Op: "open", Path: "TKUpathQ", Err: goerrors.New("TKUpeQ")}
+		if k := errors.GetTypeKey(pe); string(k) != oldKey {
+			mp.problems = append(mp.problems, Violation{Prop: "C17", Oracle: "key-of-newest-name", Culprit: "RegisterTypeMigration", Config: "form=os.PathError",
+				Expected: oldKey, Observed: string(k), Where: versionNames[v]})
+		}
+		if data, p := obs.Encode(pe); p == "" {
+			enc, err := world.ParseWire(data)
+			if err == nil && enc.GetWrapper() != nil {
+				if fam := enc.GetWrapper().Details.ErrorTypeMark.FamilyName; fam != oldKey {
+					mp.problems = append(mp.problems, Violation{Prop: "C17", Oracle: "wire-family-is-original-name", Culprit: "encoder", Config: "form=os.PathError",
+						Expected: oldKey, Observed: fam, Where: versionNames[v]})
+				}
+				// as sent by a program built before the rename
+				enc.GetWrapper().Details.OriginalTypeName = oldKey
+				enc.GetWrapper().Details.ErrorTypeMark.FamilyName = oldKey
+				if old, merr := enc.Marshal(); merr == nil {
+					dec, p2 := obs.Decode(old)
+					if _, ok := dec.(*os.PathError); !ok || p2 != "" {
+						mp.problems = append(mp.problems, Violation{Prop: "C17", Oracle: "decodes-to-current-type", Culprit: "decoder", Config: "receiver=" + versionNames[v] + " form=os.PathError",
+							Expected: "*fs.PathError", Observed: fmt.Sprintf("%T %s", dec, short(p2)), Where: "message from a pre-rename sender at " + versionNames[v]})
+					} else if obs.IsOne(dec, pe) != 'T' || obs.IsOne(pe, dec) != 'T' {
+						mp.problems = append(mp.problems, Violation{Prop: "C17", Oracle: "is-locally-built-equivalent", Culprit: "identity", Config: "receiver=" + versionNames[v] + " form=os.PathError",
+							Expected: "TT", Observed: "not both", Where: "message from a pre-rename sender at " + versionNames[v]})
+					}
+				}
 			}
 		}
 	}
